@@ -191,7 +191,7 @@ def GoalTop6 (W : World) (Γ' : Gam) (c : Cfg) (endIp : Nat) (r : Res Unit) : Pr
 theorem GoalTop6.prefix {W : World} {Γ' : Gam} {c c1 : Cfg} {endIp : Nat} {r : Res Unit} (n : Nat)
     (hpre : execN W.C n (c.vm W #[] []) = some (c1.vm W #[] [])) (h : GoalTop6 W Γ' c1 endIp r) : GoalTop6 W Γ' c endIp r := by
   rcases h with h | h
-  · exact .inl (SimF.Fails.after n hpre h)
+  · exact .inl (SimF.Ovf.after n hpre h)
   refine .inr ?_
   cases r with
   | val u st' =>
